@@ -62,6 +62,11 @@ def run_operator_case(case, prop, configs, weakly, want, nq=8, cinf_bounds=(5, 5
     via = 'parser' if rng.random() < 0.5 else 'api'
     style = rng.choice(['full', 'min'])
     parallel = rng.random() < 0.06       # the definition does not depend on how the batch is evaluated
+    if parallel and rng.random() < 0.25:
+        # a parallel batch with more queries than CPUs (anything that splits the batch into rounds or chunks
+        # must still return every row under its own key)
+        import os as _os
+        qs = qs + gen.gen_queries(rng, sig, conds, max(0, (_os.cpu_count() or 4) + rng.randint(1, 4) - len(qs)))
     reuse_objects = rng.random() < 0.08
     keys = None
     if rng.random() < 0.25:      # bases whose keys are not 1..n (e.g. after deleting a conditional)
@@ -90,6 +95,8 @@ def run_operator_case(case, prop, configs, weakly, want, nq=8, cinf_bounds=(5, 5
     bump('family', fam)
     if parallel:
         bump('cases_evaluated_in_parallel')
+        if len(qs) > nq:
+            bump('parallel_batches_larger_than_cpu_count')
     if weakly:
         bump('inf_layer_size', str(len(setup.inf)))
         if not setup.part:
